@@ -13,7 +13,7 @@ Record XInv (c : cat) : Prop := {
   xv_sxb : forall sg s, In sg (c_sgs c) -> In s (sg_shards sg) -> cs_ix s <= c_maxix c;
   xv_shb : forall sg s, In sg (c_sgs c) -> In s (sg_shards sg) -> cs_id s <= c_maxsh c;
   xv_shu : forall g1 g2 s1 s2, In g1 (c_sgs c) -> In g2 (c_sgs c) -> In s1 (sg_shards g1) -> In s2 (sg_shards g2) ->
-           cs_id s1 = cs_id s2 -> sg_end g1 = sg_end g2 /\ sg_rp g1 = sg_rp g2 /\ cs_ix s1 = cs_ix s2;
+           cs_id s1 = cs_id s2 -> sg_end g1 = sg_end g2 /\ sg_rp g1 = sg_rp g2 /\ cs_ix s1 = cs_ix s2 /\ cs_pt s1 = cs_pt s2;
   xv_igb : forall ig, In ig (c_igs c) -> ig_id ig <= c_maxig c;
   xv_sgb : forall sg, In sg (c_sgs c) -> sg_id sg <= c_maxsg c;
   xv_igu : forall g1 g2, In g1 (c_igs c) -> In g2 (c_igs c) -> ig_id g1 = ig_id g2 -> ig_end g1 = ig_end g2 /\ ig_rp g1 = ig_rp g2;
@@ -30,7 +30,7 @@ Proof. constructor; cbn; try tauto; lia. Qed.
 (* ------------------------------------------------------------------ shrinking / re-flagging keeps the invariant *)
 Definition sub_sgs (l' l : list sgroup) : Prop :=
   forall g', In g' l' -> exists g, In g l /\ sg_id g' = sg_id g /\ sg_end g' = sg_end g /\ sg_rp g' = sg_rp g /\
-    forall s', In s' (sg_shards g') -> exists s, In s (sg_shards g) /\ cs_ix s' = cs_ix s /\ cs_id s' = cs_id s.
+    forall s', In s' (sg_shards g') -> exists s, In s (sg_shards g) /\ cs_ix s' = cs_ix s /\ cs_id s' = cs_id s /\ cs_pt s' = cs_pt s.
 Definition sub_igs (l' l : list igroup) : Prop :=
   forall g', In g' l' -> exists g, In g l /\ ig_id g' = ig_id g /\ ig_end g' = ig_end g /\ ig_rp g' = ig_rp g /\
     forall i', In i' (ig_ixs g') -> exists i, In i (ig_ixs g) /\ ci_id i' = ci_id i.
@@ -50,12 +50,12 @@ Proof.
     pose proof (xv_ixb _ I _ _ Hg0 Hi0). lia.
   - intros sg s Hg Hs. destruct (Ss _ Hg) as (g & Hg0 & _ & _ & _ & Hsh). destruct (Hsh _ Hs) as (s0 & Hs0 & E & _).
     pose proof (xv_sxb _ I _ _ Hg0 Hs0). lia.
-  - intros sg s Hg Hs. destruct (Ss _ Hg) as (g & Hg0 & _ & _ & _ & Hsh). destruct (Hsh _ Hs) as (s0 & Hs0 & _ & E).
+  - intros sg s Hg Hs. destruct (Ss _ Hg) as (g & Hg0 & _ & _ & _ & Hsh). destruct (Hsh _ Hs) as (s0 & Hs0 & _ & E & _).
     pose proof (xv_shb _ I _ _ Hg0 Hs0). lia.
   - intros g1 g2 s1 s2 H1 H2 Hs1 Hs2 E.
     destruct (Ss _ H1) as (a & Ha & _ & Eae & Ear & Hsa). destruct (Ss _ H2) as (b & Hb & _ & Ebe & Ebr & Hsb).
-    destruct (Hsa _ Hs1) as (t1 & Ht1 & X1 & Y1). destruct (Hsb _ Hs2) as (t2 & Ht2 & X2 & Y2).
-    destruct (xv_shu _ I a b t1 t2 Ha Hb Ht1 Ht2) as (P & Q & R); [congruence|]. repeat split; congruence.
+    destruct (Hsa _ Hs1) as (t1 & Ht1 & X1 & Y1 & Z1). destruct (Hsb _ Hs2) as (t2 & Ht2 & X2 & Y2 & Z2).
+    destruct (xv_shu _ I a b t1 t2 Ha Hb Ht1 Ht2) as (P & Q & R & T); [congruence|]. repeat split; congruence.
   - intros ig Hg. destruct (Si _ Hg) as (g & Hg0 & E & _). pose proof (xv_igb _ I _ Hg0). lia.
   - intros sg Hg. destruct (Ss _ Hg) as (g & Hg0 & E & _). pose proof (xv_sgb _ I _ Hg0). lia.
   - intros g1 g2 H1 H2 E. destruct (Si _ H1) as (a & Ha & Ea & Eae & Ear & _). destruct (Si _ H2) as (b & Hb & Eb & Ebe & Ebr & _).
@@ -85,7 +85,7 @@ Lemma sub_prune_sg rep c id : sub_sgs (c_sgs (prune_sg rep c id)) (c_sgs c).
 Proof.
   intros g'. unfold prune_sg; cbn. rewrite filter_In, in_map_iff. intros ((g & <- & Hg) & _).
   exists g. destruct (prune_mark_sg_head rep id g) as (A & B & _ & D & _). repeat split; auto.
-  intros s' Hs'. destruct (Forall2_in_r _ _ _ _ (prune_mark_sg_shards rep id g) Hs') as (x & Hx & (E0 & _ & E) & _). eauto.
+  intros s' Hs'. destruct (Forall2_in_r _ _ _ _ (prune_mark_sg_shards rep id g) Hs') as (x & Hx & (E0 & E1 & E) & _). eauto 6.
 Qed.
 Lemma sub_prune_ig rep c id : sub_igs (c_igs (prune_ig rep c id)) (c_igs c).
 Proof.
